@@ -10,11 +10,6 @@ package p08
 //     spec.updateStrategy.rollingUpdate, which is absent for an Advanced DaemonSet of update
 //     strategy type OnDelete ("Present only if type = RollingUpdate"); the webhook panics on every
 //     release change of such a DaemonSet referenced by an active Rollout.
-//   - c08-unified-zero-replicas-held: the "replicas == 0" guard of handleStatefulSetLikeWorkload is
-//     dead on the real admission path: the Decoder fills an Unstructured with json.Unmarshal
-//     (numbers are float64), util.GetReplicas reads spec.replicas with NestedInt64, gets a type
-//     error and falls back to 1, so a StatefulSet scaled to zero is pushed into a rollout.
 var knownOpen = map[string]bool{
 	"c08-daemonset-nil-rollingupdate-panic": true,
-	"c08-unified-zero-replicas-held":        true,
 }
